@@ -176,6 +176,32 @@ CLAIMED = {
         "property-based testing (Hypothesis) with single-fault injection into valid requests",
         "3/C20",
     ),
+    "C19": (
+        "lp_dist on generated triples of untied profiles x p in {1..6, 'inf'} is compared with the p-norm of "
+        "exact-rational normalised distributions (relative 1e-9), checked for symmetry and the triangle inequality "
+        "(1e-12), for distance exactly 0 against reordered / condensed / rescaled copies and > 0 exactly when the "
+        "distributions differ.  The ballot graph for every n from 2 to 5 (6 in the thorough tier) is compared node "
+        "by node and edge by edge with the harness's enumeration of the definition (exhaustive), and generated "
+        "profiles loaded onto it must put each ballot's weight on the node given by the candidate numbering, with "
+        "length n-1 completed and weights summing to the profile total.",
+        "Floating-point comparison at stated tolerances; weights with small denominators so distinct distributions "
+        "are distinct floats.",
+        "property-based testing (Hypothesis) against an exact-rational norm + exhaustive graph enumeration n <= 6",
+        "3/C19",
+    ),
+    "C18": (
+        "A table model (header, rows, optional id / weight columns at any position, 1-6 rank columns, blanks, "
+        "repeated rows, names with spaces / quotes / commas / non-ASCII, four delimiters, rank_cols any ordered "
+        "sub-sequence) is written with csv.writer and loaded back: the ranking -> (weight, voter set) map must equal "
+        "grouping the model's rows by the selected cells, total weight = row count or summed weights; the documented "
+        "exceptions for missing file, zero bytes, header only, blank id, duplicate id.  Scottish files from a model "
+        "(seats, ward, names, parties, multiplicities, blank rows) and their inconsistent-metadata variants; to_csv "
+        "rows parsed back to weight, ranking and scores.",
+        "Cells never use strings pandas re-types by itself (NA tokens, true/false, numerics); with a weight column "
+        "rank_cols is always given.",
+        "round-trip property-based testing (Hypothesis) against a table model written to per-case temp files",
+        "3/C18",
+    ),
 }
 
 PENDING_REASON = "check not built yet in this session; the design (DESIGN.md section 3) claims it and it will be registered once it is quiet on the unchanged tree and catches its mutants"
